@@ -66,6 +66,13 @@ CHECKS = {
         "Trusted: the re-spacing mutator only changes runs of blanks between tokens on one line; sources with verbatim regions are excluded from the canonical-form comparison.",
         "DESIGN.md section 5, C14",
     ),
+    "C16": (
+        "repetition monitor: every (program, command) executed in N independent processes of the real CLI (fresh hash seeds, ASLR) and compared byte for byte",
+        "Fixtures, generated accepted programs, rejected programs with one or many reports / unresolved holes and blocks with many independent bindings are run through check, run, "
+        "fmt --check and build -t zir|zasm|asm|llvm six (quick) or 24 (thorough) times each; any difference in stdout, stderr or exit status is a violation. Exploration.",
+        "Trusted: constant absolute paths across repetitions; OS thread ids in panic banners are masked (crashes are C10/C18's subject).",
+        "DESIGN.md section 5, C16",
+    ),
     "C08": (
         "invariant monitor over zydeco_utils::graph on every digraph with <=4 nodes (exhaustive) against transitive-closure SCCs, three drain protocols; language-level permutation metamorphism",
         "Every adjacency matrix on 1..4 nodes incl. self-loops and target-only nodes is run through Kosaraju + top()/release() three ways and through obliviate/keep_only; "
